@@ -1,6 +1,7 @@
 package main
 
 import (
+	"bytes"
 	"encoding/binary"
 	"fmt"
 	"io"
@@ -51,15 +52,25 @@ type fakeKDC struct {
 
 func krbErrBytes(code int) []byte {
 	e := messages.NewKRBError(types.PrincipalName{NameType: 2, NameString: []string{"krbtgt", "TEST.GOKRB5"}}, "TEST.GOKRB5", int32(code), "simulated")
+	if code == 6 {
+		e.EData = bytes.Repeat([]byte{0x5a}, 2000) // errors can be large too (e-data): 2 KB fits a UDP reply
+	}
 	b, _ := e.Marshal()
 	return b
 }
+
+// answers come in sizes from a few bytes to just under the 4096 bytes a UDP reply may have
+var replySizes = []int{35, 1400, 1501, 2400, 4000}
 
 func replyBytes(b nBeh) []byte {
 	if b.Kind == 4 {
 		return krbErrBytes(b.Arg)
 	}
-	return []byte(fmt.Sprintf("REPLY:%d:not-a-kerberos-message", b.Arg))
+	out := []byte(fmt.Sprintf("REPLY:%d:not-a-kerberos-message", b.Arg))
+	for n := replySizes[b.Arg%len(replySizes)]; len(out) < n; {
+		out = append(out, byte('a'+len(out)%26))
+	}
+	return out
 }
 
 // Ports are handed out from a private counter below the ephemeral range: a "refusing" endpoint is a closed port, and
@@ -242,6 +253,10 @@ func runNetCase(nc netCase) netObs {
 		s := string(rb)
 		if strings.HasPrefix(s, "REPLY:") {
 			fmt.Sscanf(s, "REPLY:%d:", &o.arg)
+			if !bytes.Equal(rb, replyBytes(nBeh{0, o.arg})) {
+				o.err = fmt.Sprintf("the answer of endpoint %d came back as %d of its %d bytes", o.arg, len(rb), len(replyBytes(nBeh{0, o.arg})))
+				o.arg = -1 // not the KDC's answer
+			}
 		}
 	}
 	return o
